@@ -9,10 +9,13 @@ package c05
 
 import (
 	"fmt"
+	"os"
+	"sync"
 	"sync/atomic"
 	"testing"
 	"time"
 
+	tcpip "github.com/brewlin/net-protocol/protocol"
 	"github.com/brewlin/net-protocol/stack"
 	"pgregory.net/rapid"
 	"verifharness/codec"
@@ -34,6 +37,17 @@ type Case struct {
 	SACKBlocks bool           `json:"sack_blocks"`  // duplicate ACKs carry SACK blocks for what was received out of order
 	SilentAt   int            `json:"silent_at"`    // after this many segments were received in order the peer goes silent (-1: never)
 	Timeouts   int            `json:"timeouts"`     // number of timeouts to watch while silent
+	// ZeroMs > 0: the silence starts with a closed window. Everything is acknowledged with
+	// window 0 (the sender, with data still to send, arms its persist timer), ZeroMs later
+	// the window reopens, the sender sends at once, and the peer says nothing more: that data
+	// is timed by the retransmission timer from its own transmission, not by what is left
+	// of the persist interval
+	ZeroMs int `json:"zero_ms,omitempty"`
+	// PlaceISS (C14 hosts this test with C05_FORCE_WRAP=1): the stack opens actively and its
+	// initial sequence number is StackISS (hook H2), at most the data written below 2^31 or
+	// 2^32: loss recovery, its "recover" mark and the timers meet the wrap point
+	PlaceISS bool   `json:"place_iss,omitempty"`
+	StackISS uint32 `json:"stack_iss,omitempty"`
 	// SlowAcks > 0 (bursts of at most 10 segments, nothing lost): the peer lets the
 	// whole burst arrive, then acknowledges SlowAcks segments one at a time,
 	// SlowAckMs apart, and goes silent: the sender has sent nothing for a long
@@ -62,16 +76,65 @@ func runOnce(c Case) *evid.Failure {
 	env := rawpeer.NewEnv(c.Env)
 	defer env.Close()
 	var probeCount int64
-	env.Stack.AddTCPProbe(func(stack.TCPEndpointState) { atomic.AddInt64(&probeCount, 1) })
-	l, s, p, err := env.Passive(80, 50000, 12345, rawpeer.SynOpts{MSS: c.MSS, WS: 7, TS: c.TS, SACKPerm: c.Env.SACK}, 65535)
-	if l != nil {
-		defer l.EP.Close()
+	// the probe also notes what the sender had sent when it last left fast recovery: its
+	// "recover" mark is set there (and on entry), and duplicate ACKs for holes below the mark
+	// are deliberately ignored (RFC 6582, 3.2 step 2)
+	var pmu sync.Mutex
+	wasActive, haveExit, exitNxt := false, false, uint32(0)
+	env.Stack.AddTCPProbe(func(st stack.TCPEndpointState) {
+		atomic.AddInt64(&probeCount, 1)
+		pmu.Lock()
+		a := st.Sender.FastRecovery.Active
+		if wasActive && !a {
+			haveExit, exitNxt = true, uint32(st.Sender.SndNxt)
+		}
+		wasActive = a
+		pmu.Unlock()
+	})
+	var s *netsim.Sock
+	var p *rawpeer.Peer
+	if c.PlaceISS {
+		cs, serr := netsim.NewSock(env.Stack, 6, env.Net())
+		if serr != nil {
+			return nil
+		}
+		defer cs.EP.Close()
+		p = env.Peer(0, 80, 12345)
+		p.Wnd = 65535
+		done := make(chan bool, 1)
+		netsim.PlaceISSBegin(c.StackISS)
+		go func() {
+			e, ok := cs.ConnectNotify(tcpip.FullAddress{Addr: env.PeerAddr(), Port: 80}, 5*time.Second, nil)
+			done <- ok && e == nil
+		}()
+		f, _, ok := env.Tap.Scan(0, 3*time.Second, func(f netsim.Frame) bool { return f.Pkt.L4Kind == "tcp" && f.Pkt.Flags&codec.SYN != 0 })
+		netsim.PlaceISSEnd()
+		if !ok {
+			evid.Label("no-connection")
+			return nil
+		}
+		p.StackPort = f.Pkt.SrcPort
+		p.Cur = 0
+		if !p.AcceptActive(rawpeer.SynOpts{MSS: c.MSS, WS: 7, TS: c.TS, SACKPerm: c.Env.SACK}, 3*time.Second) || !<-done {
+			evid.Label("no-connection")
+			return nil
+		}
+		if f.Pkt.Seq == c.StackISS {
+			evid.Label("stack-iss-placed-next-to-a-wrap-point")
+		}
+		s = cs
+	} else {
+		l, s2, p2, err := env.Passive(80, 50000, 12345, rawpeer.SynOpts{MSS: c.MSS, WS: 7, TS: c.TS, SACKPerm: c.Env.SACK}, 65535)
+		if l != nil {
+			defer l.EP.Close()
+		}
+		if err != nil {
+			evid.Label("no-connection")
+			return nil
+		}
+		defer s2.EP.Close()
+		s, p = s2, p2
 	}
-	if err != nil {
-		evid.Label("no-connection")
-		return nil
-	}
-	defer s.EP.Close()
 	payload := 0 // learned from the first data segment (min of the peer's MSS and what the MTU leaves)
 	nseg := 0
 	total := c.NSeg * c.MSS
@@ -94,6 +157,7 @@ func runOnce(c Case) *evid.Failure {
 	haveLastAck := false
 	nDataInjected := 0
 	ackOverride := uint32(0)
+	zeroWnd := false
 	sendAck := func(forceDup bool) {
 		ackOff := uint32(edge * payload)
 		if ackOff > uint32(total) {
@@ -105,6 +169,9 @@ func runOnce(c Case) *evid.Failure {
 		wnd := uint16(65535)
 		if c.WndJitter && forceDup && len(acks)%2 == 1 {
 			wnd = 65000
+		}
+		if zeroWnd {
+			wnd = 0
 		}
 		p.RcvNxt = p.IRS + 1 + ackOff
 		p.Wnd = wnd
@@ -156,7 +223,7 @@ func runOnce(c Case) *evid.Failure {
 		}
 		return a, d
 	}
-	var maxEnd uint32
+	var maxEnd, recoverPoint uint32
 	silent := false
 	silenceDone := c.SilentAt < 0
 	var silenceStart time.Time
@@ -209,6 +276,9 @@ func runOnce(c Case) *evid.Failure {
 		isNew := end > maxEnd
 		if isNew {
 			maxEnd = end
+		}
+		if !e.first {
+			recoverPoint = maxEnd // a retransmission: the sender's "recover" mark is at most what it had sent by now
 		}
 		// (a) at most 10 segments before the first ACK
 		if !firstAckSent {
@@ -340,6 +410,7 @@ func runOnce(c Case) *evid.Failure {
 					seen[o2]++
 					emits = append(emits, emit{t: f2.T, off: o2, end: o2 + uint32(len(f2.Pkt.Payload)), first: false})
 					anyRtx = true
+					recoverPoint = maxEnd
 				}
 			}
 			for i := k; i < len(have); i++ {
@@ -357,7 +428,10 @@ func runOnce(c Case) *evid.Failure {
 			if c.AckDelayMs > 0 {
 				time.Sleep(time.Duration(c.AckDelayMs) * time.Millisecond)
 			}
+			closing := c.ZeroMs > 0 && uint32(edge*payload) == maxEnd && int(maxEnd) < total
+			zeroWnd = closing
 			sendAck(false)
+			zeroWnd = false
 			firstAckSent = true
 			syncDeadline := time.Now().Add(3 * time.Second)
 			for atomic.LoadInt64(&probeCount) < int64(nDataInjected) && time.Now().Before(syncDeadline) {
@@ -378,12 +452,40 @@ func runOnce(c Case) *evid.Failure {
 					if e2.end > maxEnd {
 						maxEnd = e2.end
 					}
+					if !e2.first {
+						recoverPoint = maxEnd
+					}
 					i2 := int(o2) / payload
 					if int(o2)%payload == 0 && i2 < nseg && lostLeft[i2] == 0 {
 						// received but deliberately not acknowledged during the silence
 						_ = i2
 					}
 				}
+			}
+			if closing {
+				// the window has been closed for the quiet wait plus ZeroMs; reopen it and collect what the sender sends at once
+				time.Sleep(time.Duration(c.ZeroMs) * time.Millisecond)
+				sendAck(false)
+				env.Tap.Quiesce(10*time.Millisecond, 300*time.Millisecond)
+				for {
+					f2, ok2 := p.Next(0)
+					if !ok2 {
+						break
+					}
+					if len(f2.Pkt.Payload) > 0 {
+						o2 := f2.Pkt.Seq - (p.IRS + 1)
+						seen[o2]++
+						e2 := emit{t: f2.T, off: o2, end: o2 + uint32(len(f2.Pkt.Payload)), first: seen[o2] == 1}
+						emits = append(emits, e2)
+						if e2.end > maxEnd {
+							maxEnd = e2.end
+						}
+						if !e2.first {
+							recoverPoint = maxEnd
+						}
+					}
+				}
+				evid.Label("silence:after-a-closed-window-reopened")
 			}
 			if uint32(edge*payload) < maxEnd {
 				silent, silenceStart, timeoutsSeen = true, time.Now(), 0
@@ -406,7 +508,17 @@ func runOnce(c Case) *evid.Failure {
 			for i := len(acks) - 1; i >= 0 && acks[i].ack == uint32(edge*payload) && acks[i].dup; i-- {
 				ndup++
 			}
-			if ndup == 3 && edge < nseg && !fastRtxChecked && timeoutsSeen == 0 && silenceDone == (c.SilentAt < 0) {
+			// a later loss episode calls for a fast retransmission again, provided the hole lies
+			// beyond everything that had been sent when the last retransmission (of any kind)
+			// went out: below that mark NewReno deliberately ignores duplicate ACKs (RFC 6582, 3.2 step 2)
+			pmu.Lock()
+			exited, exitRel, inRecovery := haveExit, exitNxt-(p.IRS+1), wasActive
+			pmu.Unlock()
+			later := fastRtxChecked && recoverPoint > 0 && uint32(edge*payload) >= recoverPoint && exited && !inRecovery && uint32(edge*payload) >= exitRel
+			if ndup == 3 && edge < nseg && (!fastRtxChecked || later) && timeoutsSeen == 0 && silenceDone == (c.SilentAt < 0) {
+				if later {
+					evid.Label("fast-retransmit:later-episode-judged")
+				}
 				fastRtxChecked = true
 				t3 := acks[len(acks)-1].t
 				w := uint32(edge * payload)
@@ -533,7 +645,7 @@ func genCase(rt *rapid.T) Case {
 	c.SACKBlocks = rapid.Bool().Draw(rt, "sack_blocks")
 	c.DupData = rapid.IntRange(0, 4).Draw(rt, "dup_data") == 0
 	c.AckDivide = rapid.SampledFrom([]int{0, 0, 0, 2, 4, 10}).Draw(rt, "ack_divide")
-	mode := rapid.SampledFrom([]string{"loss", "loss", "silence", "silence", "both", "slowacks"}).Draw(rt, "mode")
+	mode := rapid.SampledFrom([]string{"loss", "loss", "silence", "silence", "both", "slowacks", "episodes", "episodes"}).Draw(rt, "mode")
 	c.SilentAt = -1
 	if mode == "slowacks" {
 		c.NSeg = rapid.IntRange(4, 10).Draw(rt, "slow_nseg")
@@ -542,18 +654,45 @@ func genCase(rt *rapid.T) Case {
 		c.Timeouts = 2
 		return c
 	}
-	if mode != "silence" {
+	if mode == "episodes" {
+		// several loss episodes far apart on one connection: each later hole lies in data first
+		// sent after the previous recovery was over, so each calls for a fast retransmission
+		c.NSeg = rapid.IntRange(45, 80).Draw(rt, "ep_nseg")
+		c.AckEvery, c.AckDivide, c.DupData, c.WndJitter = 1, 0, false, false
+		c.AckDelayMs = rapid.SampledFrom([]int{0, 1}).Draw(rt, "ep_ack_delay")
+		at := rapid.IntRange(1, 6).Draw(rt, "ep_first")
+		for at < c.NSeg-3 && len(c.Lost) < 3 {
+			c.Lost = append(c.Lost, at)
+			at += rapid.IntRange(22, 36).Draw(rt, "ep_gap")
+		}
+		mode = "loss-given"
+	}
+	if mode != "silence" && mode != "loss-given" {
 		n := rapid.IntRange(1, 2).Draw(rt, "nlost")
 		for i := 0; i < n; i++ {
 			c.Lost = append(c.Lost, rapid.IntRange(0, c.NSeg-1).Draw(rt, "lost"))
 		}
 	}
-	if mode != "loss" {
+	if mode != "loss" && mode != "loss-given" {
 		c.SilentAt = rapid.IntRange(0, c.NSeg-1).Draw(rt, "silent_at")
+		c.ZeroMs = rapid.SampledFrom([]int{0, 0, 30, 60, 100}).Draw(rt, "zero_ms")
 		c.Timeouts = rapid.IntRange(2, 4).Draw(rt, "timeouts")
+	}
+	if forceWrap {
+		c.PlaceISS = true
+		total := c.NSeg * c.MSS
+		// (mostly early in the transfer, so that the loss episodes follow the crossing)
+		k := uint32(rapid.OneOf(rapid.IntRange(0, total/8+2), rapid.IntRange(0, total+2)).Draw(rt, "iss_k"))
+		if rapid.Bool().Draw(rt, "iss_32") {
+			c.StackISS = 0 - k
+		} else {
+			c.StackISS = 1<<31 - k
+		}
 	}
 	return c
 }
+
+var forceWrap = os.Getenv("C05_FORCE_WRAP") == "1"
 
 func TestRecovery(t *testing.T) {
 	evid.Run(t, evid.Spec[Case]{Name: "recovery", Gen: genCase, Run: runCase})
